@@ -14,7 +14,8 @@ def load_known(prop):
 
 
 def _safe(s):
-    return re.sub(r"[^A-Za-z0-9_.+-]+", "_", s)[:150]
+    import hashlib
+    return re.sub(r"[^A-Za-z0-9_.+-]+", "_", s)[:120] + "." + hashlib.sha1(s.encode()).hexdigest()[:8]
 
 
 class Run:
